@@ -48,6 +48,7 @@ fn props() -> Vec<PropDef> {
         p!("C12", "fault_enumeration", c12),
         p!("C13", "exploration", c13),
         p!("C14", "exploration", c14),
+        p!("C15", "model_checking", c15),
     ]
 }
 
